@@ -104,6 +104,13 @@ def extract(repo):
     u_sep = _c_unescape(_c_unescape(ms.group(1)))
     u_upper = "true" if ml.group(2) else "false"
 
+    ce = rd("src/exp2cxx/classes_entity.c")
+    pieces = re.findall(r'str\.clear\(\);\\n\s*str\.append\(\s*\\"((?:ABSTRACT )?SUPERTYPE OF \( )\\"\s*\);\\n"\s*\);\s*'
+                        r'format_for_std_stringout\(\s*impl,\s*SUBTYPEto_string\([^;]*;\s*'
+                        r'fprintf\(\s*impl,\s*"\s*str\.append\(\s*\\"((?:[^"\\]|\\.)*?)\\"\s*\);\\n"\s*\)', ce)
+    bare = re.search(r'AddSupertype_Stmt\(\s*\\"(ABSTRACT SUPERTYPE)\\"\s*\)', ce)
+    if len(pieces) != 2 or not bare or pieces[0][1] != pieces[1][1] or not pieces[0][0].startswith("ABSTRACT") or pieces[1][0].startswith("ABSTRACT"):
+        raise ValueError("ENTITYincode_print: the supertype statement (ABSTRACT SUPERTYPE [OF ( … )]) is not recognised")
     cl = rd("src/exp2cxx/classes.c")
     std = _escaped_chars(_fn(cl, r"void\s+format_for_std_stringout\s*\([^)]*\)\s*\{"), "format_for_std_stringout")
     ini = _escaped_chars(_fn(cl, r"char\s*\*\s*format_for_stringout\s*\([^)]*\)\s*\{"), "format_for_stringout")
@@ -127,6 +134,12 @@ def whereClose : String := {lstr(w_close)}
 def uniqueLabelSep : String := {lstr(u_lab)}
 def uniqueSep : String := {lstr(u_sep)}
 def uniqueLabelUpper : Bool := {u_upper}
+
+/-- classes_entity.c `ENTITYincode_print`: the pieces of `AddSupertype_Stmt( … )` -/
+def stmtAbstractOpen : String := {lstr(pieces[0][0])}
+def stmtOpen : String := {lstr(pieces[1][0])}
+def stmtClose : String := {lstr(_c_unescape(_c_unescape(pieces[0][1])))}
+def stmtAbstract : String := {lstr(bare.group(1))}
 
 /-- characters classes.c `format_for_std_stringout` writes with a backslash in front when it copies EXPRESS text into
     C++ string literals ({', '.join(str(ord(c)) for c in std)}) -/
